@@ -135,7 +135,7 @@ func faultsFor(fc *FieldCase) []dataFault {
 	case KMA2:
 		add("wrong length for a fixed-size array", p+".q", []interface{}{uint64(1)}, p+".q")
 		add("wrong type inside a map", p+".p.1", "zz", p+".p.1")
-	case KA2, KPA2:
+	case KA2, KPA2, KIA2:
 		add("wrong length for a fixed-size array", p, []interface{}{uint64(1)}, p)
 		add("wrong length for a fixed-size array", p, []interface{}{uint64(1), uint64(2), uint64(3)}, p)
 		add("wrong type inside a list", p+".1", "zz", p+".1")
@@ -159,7 +159,7 @@ func faultsFor(fc *FieldCase) []dataFault {
 		add("primitive where an object is expected", p+"."+fc.Keys[0], uint64(5), p+"."+fc.Keys[0])
 	}
 	switch fc.F.Kind {
-	case KSInt, KSVInt, KPSInt, KSStr, KSUStr, KA2, KPA2, KSStruct, KAStruct, KSSVInt, KSUCfg, KSMap:
+	case KSInt, KSVInt, KPSInt, KSStr, KSUStr, KA2, KPA2, KIA2, KSStruct, KAStruct, KSSVInt, KSUCfg, KSMap:
 		// (a primitive is a list of one entry; an object with named settings is no list)
 		add("object where a list is expected", p, obj, p)
 	}
